@@ -387,6 +387,15 @@ func (vc *FuncVC) loadAgg(st *State, a Term, t types.Type) *Val {
 
 func (vc *FuncVC) storeAgg(st *State, a Term, t types.Type, v *Val) {
 	lvs := vc.L.leaves(t, 0, "")
+	if !vc.L.layer1 {
+		for _, lf := range lvs {
+			if lf.Key == "BigInt.val" {
+				// a BigInt copied by value shares its heap representation with the source: outside the value abstraction of layer 2
+				vc.oblige("S", fmt.Sprintf("bigint-copy#%d", vc.ord("bigint-copy")), vc.reach[vc.curBlock], TFalse, vc.propTags("C05", "C06", "C16", "C18"), vc.fn.Pos(), "a BigInt must not be copied by value (the copy would share the operand's heap representation)")
+				break
+			}
+		}
+	}
 	if len(lvs) != len(v.Flat) {
 		vc.unsupported("aggregate store shape mismatch for %s", t)
 		return
@@ -472,6 +481,27 @@ func (vc *FuncVC) setupParams() {
 		}
 		vc.vals[p] = v
 		vc.params[name] = vc.toSVal(v, t)
+	}
+	// objects of the same type are identical or disjoint (no partial overlap): needed where leaves
+	// are addressed by their own address (array elements such as the inline words of a BigInt)
+	ps := vc.fn.Params
+	for i := 0; i < len(ps); i++ {
+		for j := i + 1; j < len(ps); j++ {
+			pi, ok1 := ps[i].Type().Underlying().(*types.Pointer)
+			pj, ok2 := ps[j].Type().Underlying().(*types.Pointer)
+			if !ok1 || !ok2 || !types.Identical(pi.Elem(), pj.Elem()) {
+				continue
+			}
+			sz := vc.L.sizeOf(pi.Elem())
+			if sz <= 1 {
+				continue
+			}
+			a, b := vc.vals[ps[i]], vc.vals[ps[j]]
+			if a.Kind != vScalar || b.Kind != vScalar {
+				continue
+			}
+			vc.assume(Or(Eq(a.T, IntLit(0)), Eq(b.T, IntLit(0)), Eq(a.T, b.T), Le(Add(a.T, IntLit(sz)), b.T), Le(Add(b.T, IntLit(sz)), a.T)))
+		}
 	}
 	if len(vc.fn.FreeVars) > 0 {
 		vc.unsupported("closure free variables")
